@@ -119,10 +119,33 @@ bool OutBuf::untouched(size_t from, size_t to) const {
     return true;
 }
 
+// Objects live between two 64-byte canary zones; the zones are checked after every plan line and
+// when the object is deleted, so that a stray write next to an object (also one made by assembly
+// code, which no sanitizer instruments) becomes a Fault event.
+enum { OBJ_GUARD = 64 };
+static void canary_fault(int id, const char *where) {
+    char buf[200];
+    int n = snprintf(buf, sizeof buf, "{\"e\":\"Fault\",\"kind\":\"canary\",\"obj\":%d,\"where\":\"%s\",\"line\":%ld}\n", id, where, g_line);
+    if (g_out) { fwrite(buf, 1, (size_t)n, g_out); fflush(g_out); }
+    _exit(3);
+}
+static void obj_check(int id, const Obj &o) {
+    const uint8_t *base = (const uint8_t *)o.mem - OBJ_GUARD;
+    for (size_t i = 0; i < OBJ_GUARD; ++i) if (base[i] != 0xA7) canary_fault(id, "before");
+    size_t padded = (o.size + 7) & ~(size_t)7;      // the object may legitimately be padded to its alignment
+    for (size_t i = padded; i < padded + OBJ_GUARD; ++i) if (((const uint8_t *)o.mem)[i] != 0xA7) canary_fault(id, "after");
+}
+void obj_check_all() {
+    for (std::map<int, Obj>::iterator it = g_objs.begin(); it != g_objs.end(); ++it) obj_check(it->first, it->second);
+}
 Obj &obj_new(int id, const std::string &kind, size_t size) {
     if (g_objs.count(id)) obj_del(id);
     Obj o; o.kind = kind; o.size = size;
-    if (posix_memalign(&o.mem, 64, size ? size : 1)) fatal("oom");
+    size_t padded = (size + 7) & ~(size_t)7;
+    void *raw = 0;
+    if (posix_memalign(&raw, 64, padded + 2 * OBJ_GUARD)) fatal("oom");
+    memset(raw, 0xA7, padded + 2 * OBJ_GUARD);
+    o.mem = (uint8_t *)raw + OBJ_GUARD;
     memset(o.mem, 0, size);
     g_objs[id] = o;
     return g_objs[id];
@@ -138,7 +161,8 @@ Obj &obj_get(int id, const char *kind_prefix) {
 void obj_del(int id) {
     std::map<int, Obj>::iterator it = g_objs.find(id);
     if (it == g_objs.end()) return;
-    free(it->second.mem);
+    obj_check(id, it->second);
+    free((uint8_t *)it->second.mem - OBJ_GUARD);
     g_objs.erase(it);
 }
 void obj_reset_all() {
@@ -221,6 +245,7 @@ int main(int argc, char **argv) {
         std::map<std::string, handler_t>::iterator it = g_handlers.find(a.op);
         if (it == g_handlers.end()) fatal("unknown op %s", a.op.c_str());
         it->second(a);
+        obj_check_all();
     }
     free(line);
     obj_reset_all();
